@@ -66,6 +66,10 @@ type thread struct {
 	// rendezvous slots
 	slot   interface{}
 	slotOK bool
+	// inOnce: the Once whose function this thread is executing (outermost); fromOnce: the thread was started,
+	// directly or through its ancestors, inside a Once function (a helper pool built on first use)
+	inOnce   *Once
+	fromOnce bool
 }
 
 // PointRec describes one branching point of an execution.
@@ -115,7 +119,10 @@ type Exec struct {
 	States     map[uint64]struct{}
 	ReplayErr  string // non-empty: the prefix could not be replayed (hard error)
 	MainDone   bool
-	Exited     bool // os.Exit was called
+	// LeakFromOnce: every thread left blocked at the end was started inside a sync.Once function: a helper pool
+	// built on first use. Such a Once is run again by the next execution, so the pool is rebuilt each time.
+	LeakFromOnce bool
+	Exited       bool // os.Exit was called
 	ExitCode   int
 }
 
@@ -337,12 +344,15 @@ func (s *sched) pick(self *thread) *thread {
 	s.recordState()
 	if len(en) == 0 {
 		unfinished := false
+		allOnce := true
 		for _, t := range s.threads {
 			if !t.done {
 				unfinished = true
+				allOnce = allOnce && t.fromOnce
 				s.x.Blocked = append(s.x.Blocked, s.describe(t))
 			}
 		}
+		s.x.LeakFromOnce = unfinished && allOnce
 		switch {
 		case !unfinished:
 			s.x.Outcome = OutDone
@@ -567,7 +577,14 @@ func Go(f func()) {
 		return
 	}
 	s.point(&pendingOp{kind: opSpawn})
-	s.newThread(f)
+	parent := s.running
+	t := s.newThread(f)
+	if parent != nil && (parent.inOnce != nil || parent.fromOnce) {
+		t.fromOnce = true
+		if parent.inOnce != nil {
+			parent.inOnce.spawned = true
+		}
+	}
 }
 
 // ThreadID returns the id of the running controlled thread (-1 outside an execution).
